@@ -2,7 +2,17 @@
 import os, re, subprocess, hashlib, tempfile
 from . import core
 
-INC = lambda: os.path.dirname(os.path.dirname(core.HEADER))   # .../include
+def INC():
+    """include directory that makes <ctpg/ctpg.hpp> resolve to the header under verification"""
+    h = os.path.abspath(core.HEADER)
+    if h.endswith(os.path.join('ctpg', 'ctpg.hpp')):
+        return os.path.dirname(os.path.dirname(h))
+    d = os.path.join(core.scratch(), 'inc')
+    os.makedirs(os.path.join(d, 'ctpg'), exist_ok=True)
+    link = os.path.join(d, 'ctpg', 'ctpg.hpp')
+    if not os.path.exists(link):
+        os.symlink(h, link)
+    return d
 
 
 def _compile_run(cpp_path, flags, mode, timeout=300):
